@@ -33,6 +33,35 @@ def _solver(repo: Repo):
     return repo.cls("solver.Solver")
 
 
+LOOP_HOOKS = ("optimizer_zero_grad", "optimizer_step", "backward", "manual_backward", "lr_scheduler_step", "configure_gradient_clipping")
+
+
+def r9_loop_steps_left_to_the_trainer(repo: Repo, rep):
+    R = rep.rule("R-C07-9", "the solver replaces no step of the optimisation loop (zero_grad / backward / optimizer step / scheduler step / clipping): such a hook is absent or only "
+                 "forwards its arguments to super(); nothing in the package clears gradients with set_to_none=False", floor=6,
+                 why="gradients zeroed instead of freed: a tensor that drops out of the loss keeps a zero gradient, so Adam / momentum / weight decay keep moving it - the reference loop leaves it untouched")
+    sol = repo.cls("solver.Solver")
+    for h in LOOP_HOOKS:
+        fi = sol.methods.get(h)
+        if fi is None:
+            rep.ok(R, sol.module.relpath, f"{sol.fq}.{h}", "not overridden", "-")
+            continue
+        rep.saw(fi)
+        body = [st for st in fi.node.body if not (isinstance(st, ast.Expr) and isinstance(st.value, ast.Constant))]
+        fw = None
+        if len(body) == 1 and isinstance(body[0], (ast.Return, ast.Expr)) and isinstance(body[0].value, ast.Call):
+            fw = body[0].value
+        ok = fw is not None and dump(fw.func) == f"super().{h}" and [dump(a) for a in fw.args] + [f"{k.arg}={dump(k.value)}" for k in fw.keywords] in (
+            list(fi.params[1:]), [f"{p}={p}" for p in fi.params[1:]])
+        rep.check(R, ok, fi.site(), fi.fq, f"{h} only forwards to super().{h} with the arguments it received", dump(fi.node.body[-1])[:80], f"{h} overridden")
+    for fi in repo.all_functions():
+        for c in ast.walk(fi.node):
+            if isinstance(c, ast.Call) and isinstance(c.func, ast.Attribute) and c.func.attr == "zero_grad":
+                v = kwarg(c, "set_to_none", 0)
+                rep.saw(fi)
+                rep.check(R, v is None or (isinstance(v, ast.Constant) and v.value is True), fi.site(c), fi.fq, "gradients are freed, not zeroed", dump(c)[:60], dump(c)[:60])
+
+
 def r1_step_shape(repo: Repo, rep):
     R = rep.rule(
         "R-C07-1", "training_step: one loop over all train_conditions, each called once with the step index, "
@@ -551,6 +580,7 @@ def run(repo: Repo, rep):
     r6_weight_kept(repo, rep)
     from .c19 import r4_solver_hooks  # the configured scheduler steps against the dummy loader: its length must not cut the run into epochs
     r4_solver_hooks(repo, rep)
+    r9_loop_steps_left_to_the_trainer(repo, rep)
     r1_step_shape(repo, rep)
     r2_optimizer(repo, rep)
     r3_registration(repo, rep)
